@@ -116,7 +116,9 @@ def api_level(ctx, model):
 def gen_cli_scenario(rng, sid, base, variant, collisions):
     """one group of 1 retained + len(collisions) victims; collisions[i] describes what sits at victim i's target"""
     content = bytes([97 + rng.below(26) for _ in range(5 + rng.below(20))])
-    members = [("a/keep", 0)] + [("b/v%d" % i, i + 1) for i in range(len(collisions))]
+    # every victim lives in its own directory, so that what one command leaves behind under DIR is not repaired by the next
+    vdirs = ["b", "c", "d", "e"]
+    members = [("a/keep", 0)] + [("%s/v%d" % (vdirs[i % 4], i), i + 1) for i in range(len(collisions))]
     scn = A.Scenario(sid, base, [{"content": content, "members": members}],
                      move_dir={"outside": "out", "inside": "w/zz_out", "relative": "out_rel", "other_mount": "out"}[variant])
     scn.fake_mount = (variant == "other_mount")     # hook FCLONES_VERIF_MOUNTS: DIR on "another file system" => use_rename = false
@@ -125,7 +127,7 @@ def gen_cli_scenario(rng, sid, base, variant, collisions):
         scn.dir_cli = "../%s/out_rel" % sid
     extra = []
     for i, col in enumerate(collisions):
-        a = os.path.join(scn.root, "b/v%d" % i)
+        a = os.path.join(scn.root, "%s/v%d" % (vdirs[i % 4], i))
         rel = scn.move_dir + a                     # DIR/<absolute path without the root>
         if col == "file":
             extra.append(("file", rel, b"precious-%d" % i))
@@ -136,6 +138,15 @@ def gen_cli_scenario(rng, sid, base, variant, collisions):
         elif col == "dangling_into_dir":       # the link's destination does not exist but its directory does
             extra.append(("dir", "hole"))
             extra.append(("symlink", rel, "hole/h%d" % i))
+        elif col == "empty_dirs":
+            # every directory on the way to the target exists already, EMPTY: nothing of it may disappear, whatever fails
+            e = ("dir", os.path.dirname(rel))
+            if e not in extra:
+                extra.append(e)
+        elif col == "empty_dir_root":
+            e = ("dir", scn.move_dir)          # only DIR itself exists, empty
+            if e not in extra:
+                extra.append(e)
         elif col == "link_to_source_abs":
             extra.append(("symlink", rel, a))
         elif col == "link_to_source_rel":
@@ -238,7 +249,8 @@ def run(ctx):
                 "'/' alone, relative paths; a case = one pair; non-trivial = the source has at least one component after the root. "
                 "(2) CLI: one group of 1 retained + 2 victims, DIR outside / inside the tree / relative with '..' / registered as another mount point (use_rename = false), each victim's target "
                 "pre-populated with {nothing, file, directory, dangling symlink (destination directory missing / present), symlink to a file, "
-                "symlink to the SOURCE (absolute / relative), hard link of the source, symlinked parent directory resolving to the source's directory}; fault-free, each rename failed with "
+                "symlink to the SOURCE (absolute / relative), hard link of the source, symlinked parent directory resolving to the source's directory, "
+                "EMPTY directories pre-existing along the target path / an empty DIR (must survive every copy failure)}; fault-free, each rename failed with "
                 "EXDEV (copy branch), one failure at every call; a case = one run of the binary under the shim")
     ctx.assumptions = ["no symbolic links in the directory part of the paths; symlink targets absolute",
                        "sources are absolute paths as Path::from builds them (C18_injective is stated for wf_abs paths; the relative "
@@ -271,7 +283,8 @@ def run(ctx):
         combos = [("none", "none"), ("file", "none"), ("dir", "dangling"), ("dangling", "file"), ("link_to_file", "dir"),
                   ("dangling", "dangling"), ("file", "link_to_file"), ("dangling_into_dir", "none"), ("dir", "dangling_into_dir"),
                   ("link_to_source_abs", "none"), ("link_to_source_rel", "hardlink_of_source"), ("hardlink_of_source", "link_to_source_abs"),
-                  ("symlinked_parent", "symlinked_parent")]
+                  ("symlinked_parent", "symlinked_parent"),
+                  ("empty_dirs", "empty_dirs"), ("empty_dirs", "file"), ("empty_dir_root", "none")]
         if not ctx.quick:
             combos += [(x, y) for x in COLLISIONS + SELF_COLLISIONS[:3] for y in COLLISIONS + SELF_COLLISIONS[:3] if (x, y) not in combos]
         n = 0
